@@ -97,6 +97,7 @@ func poolHandle(in []byte) []byte {
 		live bool   // not yet scribbled
 	}
 	var results []held
+	var owned []held // caller memory the library has no business with any more
 	bad := func(kind string, step int, det string) {
 		if len(res.Bad) < 4 {
 			api := ""
@@ -147,6 +148,11 @@ func poolHandle(in []byte) []byte {
 					opts |= encoder.EscapeHTML | encoder.ValidateString
 				}
 				err = encoder.EncodeInto(&buf, v, opts)
+				if err == nil && len(full) > 0 && len(buf) > 0 && &buf[:1][0] != &full[:1][0] {
+					// the library handed back another array: the one the caller supplied is the caller's alone from
+					// now on, no later call may write into it (it must not have gone into a pool)
+					owned = append(owned, held{b: full, want: append([]byte{}, full...), live: true})
+				}
 				if err == nil && !call.Post && !bytes.HasPrefix(buf, prefix) {
 					bad("prefix_changed", step, fmt.Sprintf("%q", buf[:min(len(buf), 20)]))
 				}
@@ -202,6 +208,13 @@ func poolHandle(in []byte) []byte {
 				h := &results[i]
 				if h.live && !bytes.Equal(h.b, h.want) {
 					bad("earlier_result_changed", step, fmt.Sprintf("result of call %d changed to %q", i, trunc(h.b)))
+					h.live = false
+				}
+			}
+			for i := range owned {
+				h := &owned[i]
+				if h.live && !bytes.Equal(h.b, h.want) {
+					bad("caller_memory_written", step, fmt.Sprintf("a buffer the caller supplied to an earlier EncodeInto (and got replaced) now reads %q", trunc(h.b)))
 					h.live = false
 				}
 			}
